@@ -115,6 +115,7 @@ from static_frame.core.util import is_callable_or_mapping
 from static_frame.core.util import is_dtype_specifier
 from static_frame.core.util import is_mapping
 from static_frame.core.util import isna_array
+from static_frame.core.util import immutable_filter
 from static_frame.core.util import iterable_to_array_1d
 from static_frame.core.util import iterable_to_array_nd
 from static_frame.core.util import Join
@@ -1297,6 +1298,9 @@ class Frame(ContainerOperand):
         Returns:
             :obj:`static_frame.Frame`
         '''
+        # the fields of the array are used as blocks without copying: a writeable array of the caller is copied first, as for any other array handed in
+        array = immutable_filter(array)
+
         # from a structured array, we assume we want to get the columns labels
         data, index_arrays, columns_labels = cls._structured_array_to_d_ia_cl(
                 array=array,
